@@ -351,7 +351,7 @@ def parallel(jobs, max_workers=6):
         return [f.result() for f in futs]
 
 
-def replay(ctx, sub, beh, name, extra_args, timeout=3000):
+def replay(ctx, sub, beh, name, extra_args, timeout=7200):
     """Run a replay subcommand of the harness over a behaviour file and judge the result."""
     out = os.path.join(ctx.work, "res_%s.json" % name)
     run_vh(ctx, [sub, "--in", beh, "--out", out] + extra_args, timeout=timeout)
@@ -372,7 +372,7 @@ def account(ctx, results):
     return tot
 
 
-def replay_sharded(ctx, sub, beh, name, extra_args, shards=8, timeout=3000, workarg=True):
+def replay_sharded(ctx, sub, beh, name, extra_args, shards=8, timeout=7200, workarg=True):
     """Split a behaviour file round-robin into shards, replay them in parallel, merge the results."""
     lines = open(beh).read().splitlines()
     shards = max(1, min(shards, len(lines)))
